@@ -27,13 +27,13 @@ CONSTANTS Classes,      \* subset of {"article", "book"}
                         \* FALSE: only stepping resets (repaired, LaTeX)
 
 Ctrs == {"chapter", "section", "subsection", "subsubsection", "equation", "figure", "table",
-         "enumi", "enumii", "enumiii", "enumiv", "tha", "thw", "ucw"}     \* ucw: \newcounter{ucw}[section] in the preamble
+         "enumi", "enumii", "enumiii", "enumiv", "tha", "thw", "ucw", "ucl"}     \* ucw: \newcounter{ucw}[section] in the preamble; ucl: the same declaration made in the body, after counters have been stepped
 None == "none"
 Within == [c \in Ctrs |->
              CASE c = "section" -> "chapter" [] c = "subsection" -> "section" [] c = "subsubsection" -> "subsection"
                [] c \in {"equation", "figure", "table"} -> "chapter"
                [] c = "enumii" -> "enumi" [] c = "enumiii" -> "enumii" [] c = "enumiv" -> "enumiii"
-               [] c = "thw" -> "section" [] c = "ucw" -> "section" [] OTHER -> None]
+               [] c = "thw" -> "section" [] c \in {"ucw", "ucl"} -> "section" [] OTHER -> None]
 Enum == <<"enumi", "enumii", "enumiii", "enumiv">>
 SecCtr == <<"chapter", "section", "subsection", "subsubsection">>       \* index = level + 1
 
@@ -50,9 +50,10 @@ VARIABLES cls, numdepth,
           printed,    \* machine: printed numbers in document order: [k, num] ; num = <<>> means "no number"
           rprinted,   \* rule layer: the same, from rval
           mustsec,    \* after \appendix the next numbered object must be a top-level unit
+          late,       \* \newcounter{ucl}[section] has been met in the body
           n, hist
-vars == <<cls, numdepth, val, rval, app, depth, items, printed, rprinted, mustsec, n, hist>>
-view == <<cls, numdepth, val, rval, app, depth, items, mustsec, n, printed, rprinted>>
+vars == <<cls, numdepth, val, rval, app, depth, items, printed, rprinted, mustsec, late, n, hist>>
+view == <<cls, numdepth, val, rval, app, depth, items, mustsec, late, n, printed, rprinted>>
 
 (* ---- primitive counter operations ---- *)
 (* what the machine resets: the user counter's `within` link exists only if \newcounter understood its optional argument *)
@@ -81,6 +82,7 @@ The(v, c, k, a) ==
       [] OTHER -> <<[f |-> "1", n |-> v[c]]>>
 
 Log(e) == /\ n < MaxEvents /\ n' = n + 1 /\ hist' = Append(hist, e) /\ UNCHANGED <<cls, numdepth>>
+          /\ late' = (late \/ e.k = "declare")
 Ev(k, a, b, c) == [k |-> k, a |-> a, b |-> b, c |-> c]
 Prints(k, num, rnum) == printed' = Append(printed, [k |-> k, num |-> num]) /\ rprinted' = Append(rprinted, [k |-> k, num |-> rnum])
 
@@ -114,6 +116,12 @@ Theorem(t) == /\ depth = 0 /\ t \in {"own", "shared", "within"}
 
 (* \stepcounter{ucw} followed by its printed value *)
 UserCounter == depth = 0 /\ Numbered("uc", "ucw") /\ Log(Ev("uc", 0, 0, ""))
+
+(* the same declaration made in the document body: from then on ucl is numbered within section *)
+DeclareLate == /\ depth = 0 /\ ~late /\ ~mustsec
+               /\ UNCHANGED <<val, rval, app, depth, items, printed, rprinted, mustsec>>
+               /\ Log(Ev("declare", 0, 0, ""))
+UserCounterLate == depth = 0 /\ late /\ Numbered("ucl", "ucl") /\ Log(Ev("ucl", 0, 0, ""))
 
 (* eqnarray with two rows; pat says which rows carry \nonumber.  Every row steps the counter; \nonumber
    takes the step back (addtocounter(-1)) and the row prints nothing *)
@@ -187,10 +195,10 @@ Manip(op, c, x) ==
 Init == /\ cls \in Classes /\ numdepth \in NumDepths
         /\ val = [c \in Ctrs |-> 0] /\ rval = [c \in Ctrs |-> 0]
         /\ app = FALSE /\ depth = 0 /\ items = <<>> /\ printed = <<>> /\ rprinted = <<>> /\ mustsec = FALSE
-        /\ n = 0 /\ hist = <<>>
+        /\ late = FALSE /\ n = 0 /\ hist = <<>>
 
 Next == \/ \E l \in 0..3, s \in BOOLEAN : Section(l, s)
-        \/ Equation \/ Figure \/ Table \/ UserCounter \/ Item \/ EndList \/ Appendix
+        \/ Equation \/ Figure \/ Table \/ UserCounter \/ DeclareLate \/ UserCounterLate \/ Item \/ EndList \/ Appendix
         \/ \E t \in {"own", "shared", "within"} : Theorem(t)
         \/ \E p \in {<<FALSE, FALSE>>, <<TRUE, FALSE>>, <<FALSE, TRUE>>, <<TRUE, TRUE>>} : EqnArray(p)
         \/ \E k \in {"enumerate", "itemize"} : BeginList(k)
